@@ -11,6 +11,7 @@ package main
 import (
 	"encoding/hex"
 	"errors"
+	"flag"
 	"fmt"
 	"os"
 	"reflect"
@@ -612,7 +613,16 @@ func runGen(o *hx.Out, r *hx.Rng, rounds int) {
 }
 
 func main() {
+	genEP := flag.String("gen-entrypoints", "", "write Gen/EntryPoints.lean here and exit")
+	repoRoot := flag.String("repo", "/repo", "library source tree (for -gen-entrypoints)")
 	c := hx.ParseFlags()
+	if *genEP != "" {
+		if err := genEntryPoints(*repoRoot, *genEP); err != nil {
+			fmt.Fprintln(os.Stderr, "gen-entrypoints:", err)
+			os.Exit(4)
+		}
+		return
+	}
 	o, err := hx.NewOut(c.OutDir)
 	if err != nil {
 		fmt.Fprintln(os.Stderr, err)
